@@ -234,7 +234,7 @@ class Check:
         self.cov["tlc_runs"].append({"module": module, "cfg": cfg, "label": label, "generated": r.generated,
                                      "distinct": r.distinct, "wall_s": round(r.wall, 2), "ok": r.ok})
         if expect_ok and not r.ok:
-            raise MachineryError(f"TLC failed on {module} {cfg}: {r.error}\n{r.out[-4000:]}")
+            raise MachineryError(f"TLC failed on {module} {cfg}: {r.error}\n{r.out[-1500:]}")
         return r
 
     def model_check(self, module: str, cfg: str, workers: int | None = None, big: bool = False,
